@@ -148,3 +148,5 @@
 ; the answer of Ruleset.Excludes named as a function of (rule set, path): rule sets are immutable once built
 (declare-fun excl (Int String) Bool)
 (declare-fun domin (Int String) Bool)
+(declare-fun RealPath (String) String)          ; filepath.EvalSymlinks: the physical path, all links resolved
+(declare-fun isLocalPath (String) Bool)         ; filepath.IsLocal
